@@ -199,6 +199,11 @@ impl<'a> Planner<'a> {
         let mut pruned_plan = Vec::new();
         let mut candidate_outputs = inputs.to_vec();
 
+        // IDs in `candidate_outputs`. A value can be both supplied as an input
+        // and produced by an operator in the plan. It must be listed only once,
+        // as the IDs in `new_outputs` are required to be unique.
+        let mut candidate_ids: FxHashSet<NodeId> = inputs.iter().copied().collect();
+
         // IDs of input nodes for pruned operators that we can still generate
         // with the pruned plan.
         let mut pruned_ops_resolved_inputs = FxHashSet::<NodeId>::default();
@@ -245,7 +250,11 @@ impl<'a> Planner<'a> {
             }
             resolved_values.extend(op_node.output_ids().iter().filter_map(|id_opt| *id_opt));
             pruned_plan.push(node_id);
-            candidate_outputs.extend(op_node.output_ids().iter().filter_map(|id_opt| *id_opt));
+            for output_id in op_node.output_ids().iter().filter_map(|id_opt| *id_opt) {
+                if candidate_ids.insert(output_id) {
+                    candidate_outputs.push(output_id);
+                }
+            }
         }
 
         // Get IDs of values produced by the pruned plan which are either in the
